@@ -142,7 +142,7 @@ func (e *Enc) frameCheck(st *State, ins *ssa.Store, a Val) {
 				obj := e.val(st, fa.X).T
 				// allowed only if the node was allocated by this activation
 				fld := stT.Underlying().(*types.Struct).Field(fa.Field).Name()
-				e.oblige("frame", "ast."+n.Obj().Name()+"."+fld, e.frameProps(), st.reach, Ge(obj, e.pre.hwm), "store into a field of an AST node that this activation did not allocate", ins.Pos())
+				e.oblige("frame", "ast."+n.Obj().Name()+"."+fld, e.frameProps(), st.reach, Ge(e.root(obj), e.pre.hwm), "store into a field of an AST node that this activation did not allocate", ins.Pos())
 			}
 		}
 	}
@@ -366,7 +366,7 @@ func (e *Enc) frameGoals(st *State, only map[string]bool) []frameGoal {
 			}
 			body = Term{fmt.Sprintf("(forall ((%s Int)) (=> (not %s) (= (select (select %s %s) %s) (select (select %s %s) %s))))", j.S, Or(ex2...).S, cur.S, o.S, j.S, old.S, o.S, j.S), SBool}
 		}
-		guard := And(Lt(I(0), o), Lt(o, pre.hwm), Not(Or(excl...)))
+		guard := And(Not(Eq(o, I(0))), Lt(e.root(o), pre.hwm), Not(Or(excl...)))
 		if o.Sort != SInt {
 			guard = Not(Or(excl...))
 		}
@@ -377,7 +377,7 @@ func (e *Enc) frameGoals(st *State, only map[string]bool) []frameGoal {
 }
 
 // useLemmas assumes the axiom / lemma instances named by the contract's "use" clauses, evaluated in st.
-func (e *Enc) useLemmas(st *State) {
+func (e *Enc) useLemmas(st *State, results ...Val) {
 	if e.c == nil {
 		return
 	}
@@ -403,6 +403,9 @@ func (e *Enc) useLemmas(st *State) {
 			return
 		}
 		sc := e.specCtx(st, e.pre)
+		if len(results) > 0 {
+			sc.bindResults(results, e.fn.Signature.Results())
+		}
 		n := *sc
 		n.vars = map[string]Val{}
 		n.vtypes = map[string]types.Type{}
